@@ -199,7 +199,8 @@ func sessionMain(args []string) {
 	count, sealing := 0, ""
 	race := -1 // >= 0: a retention pass runs between the publication of the sealed fraction and active.Release()
 	var raceFn func()
-	verifhook.Set(func(name, s string, _ []int64) {
+	var verifhookHandler func(name, s string, a []int64)
+	verifhookHandler = func(name, s string, _ []int64) {
 		switch {
 		case name == "c07.pf.seal.wgdone" && race >= 0 && sealing == track:
 			raceFn()
@@ -225,9 +226,14 @@ func sessionMain(args []string) {
 				os.Exit(exitCrash)
 			}
 		}
-	})
+	}
+	verifhook.Set(verifhookHandler)
 	fm := fracmanager.NewFracManager(fmConfig(dir, skip, keep, total))
-	if err := fm.Load(context.Background()); err != nil {
+	var loadCtx context.Context = context.Background()
+	if k, _ := strconv.Atoi(os.Getenv("VERIF_CANCEL_AFTER")); k > 0 {
+		loadCtx = &cancelAfterCtx{Context: context.Background(), left: k, ch: make(chan struct{})}
+	}
+	if err := fm.Load(loadCtx); err != nil {
 		say("LOADERR %v", err)
 		os.Exit(3)
 	}
@@ -289,6 +295,35 @@ func sessionMain(args []string) {
 					os.Exit(exitCrash)
 				}
 				fm.SealForcedForTests()
+			case "sealretention":
+				// retention reaches the fraction while its seal is running: the retention pass starts when the seal
+				// begins (proxyFrac.Suicide then waits for sealWg); the sealer is held for a moment after frac.Seal
+				// returned and before the sealed fraction is published, so that a Suicide that wakes too early gets to run
+				retDone := make(chan struct{})
+				started := false
+				prev := verifhookHandler
+				verifhook.Set(func(name, s string, a []int64) {
+					switch {
+					case name == "seal.begin" && filepath.Base(s) == track && !started:
+						started = true
+						go func() { fracmanager.VerifC15ShrinkSizes(fm); close(retDone) }()
+					case name == "c07.pf.seal.built" && started:
+						select {
+						case <-retDone:
+						case <-time.After(400 * time.Millisecond):
+						}
+					}
+					prev(name, s, a)
+				})
+				fm.SealForcedForTests()
+				if started {
+					select {
+					case <-retDone:
+					case <-time.After(20 * time.Second):
+						say("RETENTION-HANGS")
+					}
+				}
+				verifhook.Set(prev)
 			case "shrink":
 				fracmanager.VerifC15ShrinkSizes(fm)
 			case "cache":
@@ -301,6 +336,38 @@ func sessionMain(args []string) {
 	}
 	say("DONE")
 	os.Exit(0)
+}
+
+// cancelAfterCtx is a start-up context that gets cancelled (SIGTERM during start-up) once Done() has been polled
+// `left` times: Active.Replay polls it before every meta block.
+type cancelAfterCtx struct {
+	context.Context
+	mu   sync.Mutex
+	left int
+	ch   chan struct{}
+	done bool
+}
+
+func (c *cancelAfterCtx) Done() <-chan struct{} {
+	c.mu.Lock()
+	defer c.mu.Unlock()
+	if !c.done {
+		c.left--
+		if c.left <= 0 {
+			c.done = true
+			close(c.ch)
+		}
+	}
+	return c.ch
+}
+
+func (c *cancelAfterCtx) Err() error {
+	c.mu.Lock()
+	defer c.mu.Unlock()
+	if c.done {
+		return context.Canceled
+	}
+	return nil
 }
 
 // check <dir> <skip> <keep> <seed:n,seed:n,...> : Load, then search and fetch every corpus
@@ -385,12 +452,15 @@ func checkMain(args []string) {
 	os.Exit(0)
 }
 
+var extraEnv []string // environment of the next child only
+
 func runExe(timeout time.Duration, args ...string) (string, int) {
 	exe, _ := os.Executable()
 	ctx, cancel := context.WithTimeout(context.Background(), timeout)
 	defer cancel()
 	cmd := exec.CommandContext(ctx, exe, args...)
-	cmd.Env = append(os.Environ(), "GOMEMLIMIT=2GiB")
+	cmd.Env = append(append(os.Environ(), "GOMEMLIMIT=2GiB"), extraEnv...)
+	extraEnv = nil
 	var out bytes.Buffer
 	cmd.Stdout = &out
 	cmd.Stderr = io.Discard
@@ -503,10 +573,13 @@ func runHistory(work string, h history) (obs []string, finalServed string, died 
 		crashAt := 0
 		selfCrash := false
 		j := i + 1
-		if first.crashAt > 0 {
+		cancelAfter := 0
+		if first.ev == "startc" {
+			cancelAfter = first.crashAt // the start-up context is cancelled after that many polls; no process kill
+		} else if first.crashAt > 0 {
 			crashAt = first.crashAt
 		} else {
-			for j < len(h.steps) && h.steps[j].ev != "start" {
+			for j < len(h.steps) && h.steps[j].ev != "start" && h.steps[j].ev != "startc" {
 				s := h.steps[j]
 				switch s.ev {
 				case "fill":
@@ -551,6 +624,9 @@ func runHistory(work string, h history) (obs []string, finalServed string, died 
 		if crashAt > 0 {
 			arg = fmt.Sprint(offset + crashAt)
 		}
+		if cancelAfter > 0 {
+			extraEnv = []string{fmt.Sprintf("VERIF_CANCEL_AFTER=%d", cancelAfter)}
+		}
 		out, code := runExe(120*time.Second, "session", dir, vh.B(h.skip), vh.B(h.keep), fmt.Sprint(total), track, arg, strings.Join(ops, ","))
 		var sessObs []string
 		for _, l := range strings.Split(out, "\n") {
@@ -581,6 +657,9 @@ func runHistory(work string, h history) (obs []string, finalServed string, died 
 			obs = append(obs, sessObs[:done]...)
 			obs = append(obs, "crashed:"+listing(dir, track))
 			j = i + done + 1
+		case code == 3 && cancelAfter > 0 && strings.Contains(out, "LOADERR"):
+			// Load gave up because its context was cancelled; the process ends
+			obs = append(obs, "crashed:"+listing(dir, track))
 		case code == 0:
 			obs = append(obs, sessObs...)
 		default:
@@ -617,15 +696,16 @@ func lastLines(s string) string {
 }
 
 type harness struct {
-	o       vh.Opts
-	rep     *vh.Report
-	work    string
-	chLoad  *vh.Channel
-	chLife  *vh.Channel
-	chShr   *vh.Channel
-	orLife  *vh.Oracle
-	orOrder *vh.Oracle
-	orCache *vh.Oracle
+	o         vh.Opts
+	rep       *vh.Report
+	work      string
+	chLoad    *vh.Channel
+	chLife    *vh.Channel
+	chShr     *vh.Channel
+	orLife    *vh.Oracle
+	orOrder   *vh.Oracle
+	orCache   *vh.Oracle
+	orSealRet *vh.Oracle
 }
 
 func (h *harness) life(hist history) {
@@ -647,6 +727,10 @@ func (h *harness) life(hist history) {
 		site, class := "fracmanager/loader.go:filterInfos", "start-up-dies-on-crash-state"
 		h.rep.Violate(vh.Violation{Site: site, Class: class,
 			What:   fmt.Sprintf("history %s: the store does not start: %s; states %s", hist.events(), detail, strings.Join(obs, ";")),
+			Replay: []string{hist.String()}})
+	} else if strings.Contains(hist.events(), "startc") && !strings.Contains(hist.events(), "suicide") && served != "all" {
+		h.rep.Violate(vh.Violation{Site: "frac/active.go:Replay", Class: "cancelled-start-up-loses-documents",
+			What:   fmt.Sprintf("history %s: after a start-up whose context was cancelled during the replay of the unsealed fraction, a normal start serves %q of its %d acknowledged documents: %s; states %s", hist.events(), served, hist.n, detail, strings.Join(obs, ";")),
 			Replay: []string{hist.String()}})
 	} else if eff := effectiveDeletion(hist, obs); eff >= 0 && served == "all" {
 		site := "frac/sealed.go:Suicide"
@@ -762,6 +846,12 @@ func (h *harness) histories(skip, keep bool, n int, seed int64, full bool) []his
 		}
 	}
 	// crash inside the seal, restart, seal again, delete
+	// the start-up context is cancelled (SIGTERM) while the unsealed fraction is being replayed, then a normal start
+	for _, k := range []int{1, 2, 4} {
+		hc := mk(st("new"), st("fill"), at("startc", k), st("start"), st("start"))
+		hc.n = 700 // seven bulks = seven meta blocks
+		hs = append(hs, hc)
+	}
 	// retention deletes a fraction that is still active after an interrupted seal left its .sdocs behind (crash after
 	// ._sdocs -> .sdocs, before the index is published), the process dying between every pair of removals of Active.Suicide
 	for k := 1; k <= 2; k++ {
@@ -778,6 +868,33 @@ func (h *harness) histories(skip, keep bool, n int, seed int64, full bool) []his
 		}
 	}
 	return hs
+}
+
+// sealRetention: retention truncates a fraction whose seal is running.  Afterwards nothing of it may be left to serve.
+func (h *harness) sealRetention(skip, keep bool, n int, seed int64) {
+	work, _ := os.MkdirTemp(h.work, "sr")
+	defer os.RemoveAll(work)
+	dir := filepath.Join(work, "data")
+	os.MkdirAll(dir, 0o755)
+	out, code := runExe(120*time.Second, "session", dir, vh.B(skip), vh.B(keep), "1", "", "0", fmt.Sprintf("fill:%d:%d,sealretention", seed, n))
+	track := ""
+	for _, l := range strings.Split(out, "\n") {
+		if f := strings.Fields(l); len(f) > 1 && f[0] == "OBS" {
+			track = f[1]
+		}
+	}
+	key := fmt.Sprintf("sealretention skip=%s keep=%s n=%d seed=%d", vh.B(skip), vh.B(keep), n, seed)
+	res := runCheck(dir, skip, keep, fmt.Sprintf("%d:%d", seed, n))
+	left := listing(dir, track)
+	h.orSealRet.Case(key, true, fmt.Sprintf("session-exit=%d", code), "served="+res.served[seed], "left="+left)
+	if code != 0 || strings.Contains(out, "RETENTION-HANGS") {
+		h.rep.Violate(vh.Violation{Site: "fracmanager/proxy_frac.go:Suicide", Class: "retention-during-seal-kills-or-hangs",
+			What: fmt.Sprintf("retention pass on a fraction whose seal is running: the process ended with exit code %d: %s", code, lastLines(out)), Replay: []string{key}})
+	}
+	if !res.up || res.served[seed] != "none" || strings.ContainsAny(dataFiles("x:"+left), "ef") {
+		h.rep.Violate(vh.Violation{Site: "fracmanager/proxy_frac.go:Seal", Class: "fraction-deleted-during-seal-reappears",
+			What: fmt.Sprintf("retention removed the fraction from the store while its seal was running; after the seal finished and a restart the files left are %s and the fraction serves %q (%s)", left, res.served[seed], res.detail), Replay: []string{key}})
+	}
 }
 
 // ---------------------------------------------------------------- loader channel (as in C08, against the C15 driver)
@@ -1207,12 +1324,13 @@ func main() {
 	}
 	defer os.RemoveAll(work)
 	h := &harness{o: o, rep: rep, work: work,
-		chLoad:  vh.NewChannel("loader.startup", "real FracManager.Load in a child process on one fraction's directory vs SV.FileSet.startup (extracted orphanFatal): loaded kind (none/active/sealed/down) and the files left; quick: all 2^7 presence combinations with valid and with empty contents plus mixed samples, thorough: all 3^7 (absent/empty/valid) and all 2^7 empty with temporary files; non-trivial = at least one file present"),
-		chLife:  vh.NewChannel("life", "histories of one fraction on the real store (rotate, bulks, SealForcedForTests, a retention pass that deletes it as active or as sealed fraction, restarts), one child process per session, killed after the k-th file operation on the fraction's files (k over all operations of NewActive, Active.Suicide, Sealed.Suicide, the loader's own removals, and every other operation of sealing) vs SV.Lifecycle through `life`: what the store holds and the directory listing after every step, and what the final restart serves; non-trivial = the history contains a crash"),
-		chShr:   vh.NewChannel("shrink", "the real shrinkSizes on a store with several sealed fractions of growing size, TotalSize placed inside and exactly at every boundary, vs SV.Lifecycle.shrink: number of fractions removed; non-trivial = some but not all removed"),
-		orLife:  vh.NewOracle("life.restart", "every history of the life channel: no Load dies and the final restart serves the fraction completely or not at all; non-trivial = the history contains a crash"),
-		orOrder: vh.NewOracle("retention.order", "after a start without .frac-cache every fraction's FullSize equals the size of its files; shrinkSizes removes the shortest prefix of the creation order that brings the files' total under TotalSize, the rest is a suffix and a restart serves exactly it; after a restart that finds an older unsealed fraction next to a newer sealed one fm.fracs is still in creation order; non-trivial = something was removed"),
-		orCache: vh.NewOracle("cache.restart", "(served set, sealed fractions and their FullSize, which must also equal the size of their files) restart with .frac-cache missing / empty / garbage / stale / truncated at several lengths / parsing but with entries that lack the sizes (name only, numeric fields zeroed, no index_on_disk - what NewSealed explicitly refuses to trust) serves the same fractions and documents as with the valid cache; non-trivial = not the valid cache"),
+		chLoad:    vh.NewChannel("loader.startup", "real FracManager.Load in a child process on one fraction's directory vs SV.FileSet.startup (extracted orphanFatal): loaded kind (none/active/sealed/down) and the files left; quick: all 2^7 presence combinations with valid and with empty contents plus mixed samples, thorough: all 3^7 (absent/empty/valid) and all 2^7 empty with temporary files; non-trivial = at least one file present"),
+		chLife:    vh.NewChannel("life", "histories of one fraction on the real store (rotate, bulks, SealForcedForTests, a retention pass that deletes it as active or as sealed fraction, restarts), one child process per session, killed after the k-th file operation on the fraction's files (k over all operations of NewActive, Active.Suicide, Sealed.Suicide, the loader's own removals, and every other operation of sealing) vs SV.Lifecycle through `life`: what the store holds and the directory listing after every step, and what the final restart serves; non-trivial = the history contains a crash"),
+		chShr:     vh.NewChannel("shrink", "the real shrinkSizes on a store with several sealed fractions of growing size, TotalSize placed inside and exactly at every boundary, vs SV.Lifecycle.shrink: number of fractions removed; non-trivial = some but not all removed"),
+		orLife:    vh.NewOracle("life.restart", "every history of the life channel: no Load dies and the final restart serves the fraction completely or not at all; non-trivial = the history contains a crash"),
+		orOrder:   vh.NewOracle("retention.order", "after a start without .frac-cache every fraction's FullSize equals the size of its files; shrinkSizes removes the shortest prefix of the creation order that brings the files' total under TotalSize, the rest is a suffix and a restart serves exactly it; after a restart that finds an older unsealed fraction next to a newer sealed one fm.fracs is still in creation order; non-trivial = something was removed"),
+		orSealRet: vh.NewOracle("retention.during-seal", "a retention pass pops the fraction while its seal is running (proxyFrac.Suicide waits for the seal; the sealer is held for up to 400 ms between the return of frac.Seal and the publication so that a Suicide waking too early gets to run): the process survives, and after a restart no documents, index or deletion markers of the fraction are left and nothing of it is served"),
+		orCache:   vh.NewOracle("cache.restart", "(served set, sealed fractions and their FullSize, which must also equal the size of their files) restart with .frac-cache missing / empty / garbage / stale / truncated at several lengths / parsing but with entries that lack the sizes (name only, numeric fields zeroed, no index_on_disk - what NewSealed explicitly refuses to trust) serves the same fractions and documents as with the valid cache; non-trivial = not the valid cache"),
 	}
 	rng := vh.NewRNG(o.Seed)
 	if o.Replay != "" {
@@ -1228,6 +1346,10 @@ func main() {
 				n, _ := strconv.Atoi(kv["n"])
 				seed, _ := strconv.ParseInt(kv["seed"], 10, 64)
 				h.life(history{kv["skip"] == "1", kv["keep"] == "1", parseEvents(kv["events"]), n, seed})
+			case strings.HasPrefix(l, "sealretention "):
+				n, _ := strconv.Atoi(kv["n"])
+				seed, _ := strconv.ParseInt(kv["seed"], 10, 64)
+				h.sealRetention(kv["skip"] == "1", kv["keep"] == "1", n, seed)
 			case strings.HasPrefix(l, "retention"), strings.HasPrefix(l, "restart-order"):
 				h.retention(rng)
 			case strings.HasPrefix(l, "cache"):
@@ -1249,6 +1371,13 @@ func main() {
 				}
 			}
 		}
+		if only("sealretention") {
+			h.sealRetention(false, false, o.Pick(300, 900), o.Seed+50)
+			h.sealRetention(true, false, o.Pick(300, 900), o.Seed+51)
+			if o.Thorough() {
+				h.sealRetention(false, true, 500, o.Seed+52)
+			}
+		}
 		if only("load") {
 			h.loaderChannel(rng)
 		}
@@ -1265,6 +1394,7 @@ func main() {
 	rep.AddOracle(h.orLife)
 	rep.AddOracle(h.orOrder)
 	rep.AddOracle(h.orCache)
+	rep.AddOracle(h.orSealRet)
 	sort.SliceStable(rep.Violations, func(i, j int) bool { return rep.Violations[i].Site < rep.Violations[j].Site })
 	rep.Write(o.Out)
 }
